@@ -14,7 +14,7 @@ BUDGET = {"quick": 20, "thorough": 200}
 MIN_CASES = {"quick": 5000, "thorough": 100000}
 EXHAUSTIVE_CLAIM = True
 RULE = ("URLs rendered from the product of component shapes (7 scheme spellings x 6 userinfo x 26 hosts incl. IPv4, bracketed IPv6 with/without hex letters, "
-        "localhost, multi-label/wildcard/exception suffixes, IDN x 6 ports incl. empty x 12 paths incl. empty segments x 7 queries x 6 fragments): quick = every "
+        "localhost, multi-label/wildcard/exception suffixes, IDN x 6 ports incl. empty x 13 paths incl. empty segments and an embedded '://' x 8 queries x 6 fragments): quick = every "
         "single and pairwise deviation from a base URL plus a seeded sample, thorough = the full product; plus seeded random URLs with random tokens; x suffix_aware. "
         "A case is (url, suffix_aware); non-trivial = the URL has at least two of {userinfo, port, non-root path, query, fragment} or a special host; distinct = distinct (url, suffix_aware).")
 ASSUMPTIONS = ["urllib.parse.urlsplit reads both sides", "URLs contain no '|', no empty password, no '@' inside userinfo, no trailing-dot host, no surrounding whitespace (outside the stated quantifier)"]
@@ -28,8 +28,8 @@ HOSTS = ["a.com", "www.a.co.uk", "A.Com", "b.a.compute.amazonaws.com", "foo.ck",
          "[fe80::a:b]", "[1:2:3:4:5:6:7:8]", "[::ffff:1.2.3.4]", "localhost", "com", "co.uk", "xn--tlrama-bvab.fr", "télérama.fr", "unknown.zzzz", "a.b.c.d.e.f",
          "svc.firenet.ch", "a-b.example.org", "127.0.0.1", "WWW.Example.ORG", "cafe.be", "[2001:DB8::A]"]
 PORTS = ["", ":8080", ":80", ":", ":0080", ":65535"]
-PATHS = ["", "/", "/a", "/a/", "/a//b", "//", "/a/b/c", "/a:b@c", "/a b", "/é/%C3%A9", "/a/./../b", "///"]
-QUERIES = ["", "?", "?a=1", "?a=1&b", "?x:y@z", "?a=?b/c", "?é=%20"]
+PATHS = ["", "/", "/a", "/a/", "/a//b", "//", "/a/b/c", "/a:b@c", "/a b", "/é/%C3%A9", "/a/./../b", "///", "/r/http://x.y/z"]
+QUERIES = ["", "?", "?a=1", "?a=1&b", "?x:y@z", "?a=?b/c", "?é=%20", "?to=http://o.org/p"]
 FRAGS = ["", "#", "#f", "#/route?x", "#a#b", "#:@"]
 DIMS = [SCHEMES, USERINFO, HOSTS, PORTS, PATHS, QUERIES, FRAGS]
 
@@ -51,7 +51,12 @@ def classify(ctx, u):
 
 
 def check(ctx, u, sa, mods):
-    from ural.ensure_protocol import ensure_protocol
+    def ensure_protocol(x):
+        # independent of ural.ensure_protocol: a protocol is [a-zA-Z]{0,64}:?// at the very start, else 'http://' is assumed
+        import re
+        if not re.match(r"^[a-zA-Z]{0,64}:?//", x):
+            return "http://" + x
+        return ("http:" + x) if x.startswith("//") else x
 
     lru_stems, url_to_lru, lru_to_url, serialize_lru, unserialize_lru = mods
     wit = {"url": u, "suffix_aware": sa}
